@@ -318,7 +318,7 @@ def run(rep):
     for kind in KINDS:
         for dt0 in (1.0, 0.5):
             for tau, amp in ((2.0, 1.0), (20.0, -0.5)):
-                if kind in ("event-inf", "event-zero", "pass", "ema", "ca") and tau != 2.0:
+                if kind in ("event-inf", "event-zero", "pass", "ema", "ca", "nearest-tol", "cumulative-tol") and tau != 2.0:
                     continue
                 for durk in (0, 2, 2.5):
                     for inplace in (False, True):
